@@ -137,6 +137,7 @@ type Case struct {
 	Ops     []LOp     `json:"ops,omitempty"`
 	Value   *ValueIn  `json:"value,omitempty"`
 	Redeem  *RedeemIn `json:"redeem,omitempty"`
+	Uncles  *UnclesIn `json:"uncles,omitempty"`
 }
 
 // ---------------------------------------------------------------- Coq printing
@@ -186,6 +187,10 @@ func (o LOp) Coq() string {
 		return fmt.Sprintf("CPrim (OGetLatest %s %s %d %d)", caddr(g.Owner), caddr(g.Miner), g.Lb, g.Height)
 	case "commit":
 		return "CPrim OCommit"
+	case "blockend":
+		return "CBlockEnd"
+	case "rollback":
+		return fmt.Sprintf("CRollback %d", o.N)
 	}
 	panic("op " + o.K)
 }
@@ -258,10 +263,96 @@ func frontOf(owner []byte) []byte { // contract A_i that calls owner contract B_
 // ---------------------------------------------------------------- the real world
 
 type world struct {
+	blockSalt int
 	db    ethdb.Database
 	sdb   *state.StateDB
 	batch ethdb.Batch
 	close func()
+	// block structure (histories with "blockend"/"rollback" ops): canonical chain of empty blocks whose
+	// lockup undo records are the ones StateProcessor.Process would write for the ops of the block
+	hc      *core.HeaderChain
+	chain   []*types.WorkObject
+	created [][]byte
+	deleted []rawdb.DeletedCoinbaseLockup
+}
+
+// startChain stores the first canonical block and builds the HeaderChain SetCurrentHeader runs on.
+func (w *world) startChain() {
+	w.hc = core.VerifC13NewReorgChain(w.db, &params.ChainConfig{ChainID: big.NewInt(1), Location: loc}, logger)
+	w.pushBlock()
+}
+
+func (w *world) pushBlock() {
+	wo := types.EmptyWorkObject(common.ZONE_CTX)
+	n := uint64(1)
+	if len(w.chain) > 0 {
+		p := w.chain[len(w.chain)-1]
+		n = p.NumberU64(common.ZONE_CTX) + 1
+		wo.WorkObjectHeader().SetParentHash(p.Hash())
+	} else {
+		wo.WorkObjectHeader().SetParentHash(common.Hash{0xc1, 0x3, 0xba, 0x5e})
+	}
+	wo.WorkObjectHeader().SetNumber(new(big.Int).SetUint64(n))
+	wo.WorkObjectHeader().SetLocation(loc)
+	wo.WorkObjectHeader().SetTime(1000 + 5*n)
+	w.blockSalt++
+	wo.WorkObjectHeader().SetTxHash(common.Hash{0x13, byte(w.blockSalt), byte(w.blockSalt >> 8)})
+	// every field the database encoding normalises must be set, or the block read back has another hash
+	wo.WorkObjectHeader().SetDifficulty(big.NewInt(1000))
+	wo.WorkObjectHeader().SetPrimeTerminusNumber(big.NewInt(0))
+	wo.WorkObjectHeader().SetLock(0)
+	wo.WorkObjectHeader().SetData([]byte{0})
+	wo.WorkObjectHeader().SetPrimaryCoinbase(A(minersQuai[0]))
+	wo.WorkObjectHeader().SetHeaderHash(wo.Header().Hash())
+	h := wo.Hash()
+	// the undo records go into the block's batch, as in StateProcessor.Process
+	if err := rawdb.WriteCreatedCoinbaseLockupKeys(w.batch, h, w.created); err != nil {
+		panic(err)
+	}
+	if err := rawdb.WriteDeletedCoinbaseLockups(w.batch, h, w.deleted); err != nil {
+		panic(err)
+	}
+	w.created, w.deleted = nil, nil
+	if err := w.batch.Write(); err != nil {
+		panic(err)
+	}
+	w.batch = w.db.NewBatch()
+	w.batch.SetPending(true)
+	rawdb.WriteTermini(w.db, h, types.EmptyTermini())
+	rawdb.WriteWorkObject(w.db, h, wo, types.BlockObject, common.ZONE_CTX)
+	rawdb.WriteCanonicalHash(w.db, h, n)
+	rawdb.WriteHeadBlockHash(w.db, h)
+	w.chain = append(w.chain, wo)
+	w.hc.VerifC13SetHead(wo)
+}
+
+// rollback makes the k-th ancestor of the head the head again (HeaderChain.SetCurrentHeader).
+func (w *world) rollback(k int) error {
+	if k >= len(w.chain) {
+		k = len(w.chain) - 1
+	}
+	target := w.chain[len(w.chain)-1-k]
+	w.created, w.deleted = nil, nil
+	w.batch = w.db.NewBatch() // what the orphaned pending block did is dropped
+	w.batch.SetPending(true)
+	err := w.hc.SetCurrentHeader(target)
+	w.chain = w.chain[:len(w.chain)-k]
+	return err
+}
+
+// lockupImage: every lockup record of the committed database.
+func (w *world) lockupImage() map[string]Rec {
+	im := map[string]Rec{}
+	it := w.db.NewIterator(rawdb.CoinbaseLockupPrefix, nil)
+	for it.Next() {
+		if len(it.Key()) == rawdb.CoinbaseLockupKeyLength {
+			if r := parseRecBytes(it.Value()); r != nil {
+				im[string(it.Key())] = *r
+			}
+		}
+	}
+	it.Release()
+	return im
 }
 
 func newWorld(backend, dir string) *world {
@@ -348,8 +439,33 @@ func (w *world) add(a *AddA) (bool, bool, []byte) {
 		sender = common.ZeroInternal(loc)
 	}
 	v, _ := new(big.Int).SetString(a.Value, 10)
-	del, old, _, _, _, err := vm.AddNewLock(w.sdb, w.batch, A(a.Owner), A(a.Miner), A(a.Deleg), sender, a.Lb, a.Unlock, a.Epoch, v, loc, logger, common.Hash{}, true)
+	del, old, key, _, newHash, err := vm.AddNewLock(w.sdb, w.batch, A(a.Owner), A(a.Miner), A(a.Deleg), sender, a.Lb, a.Unlock, a.Epoch, v, loc, logger, common.Hash{}, true)
+	if err == nil && w.hc != nil && newHash != (common.Hash{}) {
+		// StateProcessor.Process, coinbase paid into a lockup contract
+		if del {
+			w.deleted = append(w.deleted, rawdb.DeletedCoinbaseLockup{Key: key, Value: old})
+		} else {
+			w.created = append(w.created, key)
+		}
+	}
 	return err == nil, del, old
+}
+
+// noteClaim: applyTransaction / Process: receipt.CoinbaseLockupsDeleted = evm.CoinbasesDeleted of a successful transaction
+func (w *world) noteClaim(evm *vm.EVM) {
+	if w.hc == nil {
+		return
+	}
+	keys := make([]string, 0, len(evm.CoinbasesDeleted))
+	for k := range evm.CoinbasesDeleted {
+		keys = append(keys, string(k[:]))
+	}
+	sort.Strings(keys)
+	for _, k := range keys {
+		var kk [47]byte
+		copy(kk[:], k)
+		w.deleted = append(w.deleted, rawdb.DeletedCoinbaseLockup{Key: []byte(k), Value: evm.CoinbasesDeleted[kk]})
+	}
 }
 
 func claimInput(c *ClaimA) []byte {
@@ -408,6 +524,7 @@ func (w *world) step(o LOp) LOut {
 				evm.UndoCoinbasesDeleted()
 			} else if err == nil {
 				r.Paid = paidOf(evm)
+				w.noteClaim(evm)
 			} else if len(evm.ETXCache) != 0 {
 				r.Paid = paidOf(evm)
 			}
@@ -419,6 +536,9 @@ func (w *world) step(o LOp) LOut {
 			_, _, _, err := evm.Call(vm.AccountRef(A(origin)), A(frontOf(c.Caller)), append(in, flag), 8000000, big.NewInt(0))
 			r.Ok, r.Gas = err == nil, 0
 			r.Paid = paidOf(evm)
+			if err == nil {
+				w.noteClaim(evm)
+			}
 		}
 		r.Post = w.read(c.Caller, c.Miner, c.Lb, c.Epoch)
 		return r
@@ -446,6 +566,14 @@ func (w *world) step(o LOp) LOut {
 		}
 		w.batch = w.db.NewBatch()
 		w.batch.SetPending(true)
+		return LOut{Kind: "none"}
+	case "blockend":
+		w.pushBlock()
+		return LOut{Kind: "none"}
+	case "rollback":
+		if err := w.rollback(o.N); err != nil {
+			return LOut{Kind: "none", Ok: false, Oks: -1}
+		}
 		return LOut{Kind: "none"}
 	}
 	panic("op " + o.K)
@@ -481,6 +609,28 @@ func runLedger(c *Case, dir string, rep *hlib.Report) []LOut {
 		failed = true
 		rep.Fail(sig, what, c)
 	}
+	// block-structured histories: the monitor keeps, per canonical block, its own accounting and an
+	// image of the committed lockup records; a rollback must bring both back
+	type snapT struct {
+		ref         map[string]*refT
+		added, paid *big.Int
+		image       map[string]Rec
+	}
+	var snaps []snapT
+	snapshot := func() snapT {
+		cp := map[string]*refT{}
+		for k, v := range ref {
+			cp[k] = &refT{v.owner, v.miner, v.lb, v.epoch, new(big.Int).Set(v.bal)}
+		}
+		return snapT{cp, new(big.Int).Set(added), new(big.Int).Set(paid), w.lockupImage()}
+	}
+	for _, o := range c.Ops {
+		if o.K == "blockend" || o.K == "rollback" {
+			w.startChain()
+			snaps = append(snaps, snapshot())
+			break
+		}
+	}
 	for i, o := range c.Ops {
 		var pre Rec
 		switch o.K {
@@ -507,6 +657,50 @@ func runLedger(c *Case, dir string, rep *hlib.Report) []LOut {
 		}()
 		outs = append(outs, r)
 		rep.Count("ledger_op/" + o.K + "/" + map[bool]string{true: "ok", false: "refused"}[r.Ok || r.Oks > 0 || r.Kind == "none"])
+		switch o.K {
+		case "blockend":
+			snaps = append(snaps, snapshot())
+			rep.Count("ledger_reorg/block")
+		case "rollback":
+			k := o.N
+			if k >= len(snaps) {
+				k = len(snaps) - 1
+			}
+			rep.Count(fmt.Sprintf("ledger_reorg/rollback-%d-blocks", k))
+			snaps = snaps[:len(snaps)-k]
+			sn := snaps[len(snaps)-1]
+			snaps[len(snaps)-1] = snapT{sn.ref, sn.added, sn.paid, sn.image}
+			ref = map[string]*refT{}
+			for kk, v := range sn.ref {
+				ref[kk] = &refT{v.owner, v.miner, v.lb, v.epoch, new(big.Int).Set(v.bal)}
+			}
+			added, paid = new(big.Int).Set(sn.added), new(big.Int).Set(sn.paid)
+			if r.Oks < 0 {
+				fail("C13/reorg/rollback-failed", fmt.Sprintf("op %d: SetCurrentHeader refused to roll %d block(s) back", i, k))
+				break
+			}
+			if !inDomain {
+				break
+			}
+			got := w.lockupImage()
+			for _, kk := range hlib.SortedKeys(sn.image) {
+				want := sn.image[kk]
+				g, ok := got[kk]
+				switch {
+				case !ok:
+					fail("C13/reorg/lockup-lost", fmt.Sprintf("op %d: after rolling %d block(s) back the lockup %x (balance %v) of the surviving chain is gone", i, k, kk, want.Bal))
+				case g.Bal.Cmp(want.Bal) != 0 || g.Unlock != want.Unlock || g.Elems != want.Elems:
+					fail("C13/reorg/lockup-not-restored", fmt.Sprintf("op %d: after rolling %d block(s) back the lockup %x holds (%v, unlock %d, %d rewards), the surviving chain had (%v, %d, %d)", i, k, kk, g.Bal, g.Unlock, g.Elems, want.Bal, want.Unlock, want.Elems))
+				case string(g.Deleg) != string(want.Deleg):
+					fail("C13/reorg/lockup-delegate-not-restored", fmt.Sprintf("op %d: lockup %x: delegate %x, the surviving chain had %x", i, kk, g.Deleg, want.Deleg))
+				}
+			}
+			for _, kk := range hlib.SortedKeys(got) {
+				if _, ok := sn.image[kk]; !ok {
+					fail("C13/reorg/orphaned-reward-survives", fmt.Sprintf("op %d: after rolling %d block(s) back the lockup %x (balance %v) created by an orphaned block is still there: it would be paid out", i, k, kk, got[kk].Bal))
+				}
+			}
+		}
 		if !inDomain {
 			continue
 		}
@@ -741,7 +935,67 @@ func corpus() []Case {
 	// uint32 truncation of the tranche height (out of the monitors' domain)
 	hi := LOp{K: "add", Add: &AddA{Owner: o1, Miner: m1, Deleg: zero20, SenderOk: true, Lb: 0, Unlock: 1<<32 + 5*E + 17, Epoch: 9, Value: "10"}}
 	both("uint32-truncation", []LOp{hi, mkGet(o1, m1, 0, 9), mkClaim(0, o1, m1, t1, 0, 9, 1<<32+5*E), mkClaim(0, o1, m1, t1, 0, 9, 1<<32)})
+	// ---- reorgs: blocks of rewards/claims with the undo records Process writes, rolled back by SetCurrentHeader
+	be, rb := LOp{K: "blockend"}, func(k int) LOp { return LOp{K: "rollback", N: k} }
+	// a block creates a tranche AND adds to it again, is orphaned; the new chain's reward must be alone in the tranche
+	both("reorg-create-and-add-in-one-block", []LOp{
+		be, mkAdd(o1, m1, zero20, 0, 100, "100"), mkAdd(o1, m1, delegs[1], 0, 100, "50"), mkAdd(o1, m1, delegs[1], 0, 100, "25"), be, rb(1), mkGet(o1, m1, 0, 1),
+		mkAdd(o1, m1, zero20, 0, 101, "7"), be, mkGet(o1, m1, 0, 1), mkClaim(0, o1, m1, t1, 0, 1, th), mkGet(o1, m1, 0, 1),
+	})
+	// an existing tranche is added to twice (delegate changes) in the orphaned block
+	both("reorg-existing-tranche-twice", []LOp{
+		mkAdd(o1, m1, delegs[1], 0, 100, "100"), mkAdd(o2, m1, zero20, 1, 100, "11"), be, mkAdd(o1, m1, delegs[2], 0, 101, "50"), mkAdd(o1, m1, zero20, 0, 101, "25"), mkAdd(o1, m2, zero20, 0, 101, "5"), be,
+		rb(1), mkGet(o1, m1, 0, 1), mkGet(o1, m2, 0, 1), mkClaim(0, o1, m1, t1, 0, 1, th), mkClaim(0, o1, m2, t1, 0, 1, th), mkGet(o2, m1, 1, 1),
+	})
+	// a claim is orphaned: the lockup is back and can be claimed on the new chain; claim + new reward in one block
+	both("reorg-claim-rolled-back", []LOp{
+		mkAdd(o1, m1, zero20, 0, 100, "100"), be, mkClaim(0, o1, m1, t1, 0, 1, th), mkAdd(o2, m2, zero20, 0, th, "9"), be, rb(1), mkGet(o1, m1, 0, 1), mkGet(o2, m2, 0, uint32(th/E+1)),
+		mkClaim(2, o1, m1, t1, 0, 1, th), be, rb(1), mkClaim(1, o1, m1, t1, 0, 1, th), mkClaim(0, o1, m1, t1, 0, 1, th), be, mkClaim(0, o1, m1, t1, 0, 1, th),
+	})
+	// several blocks at once, then growing again
+	both("reorg-three-blocks", []LOp{
+		mkAdd(o1, m1, zero20, 0, 100, "1"), be, mkAdd(o1, m1, zero20, 0, 101, "2"), mkAdd(o3, m1, zero20, 2, 101, "20"), be, mkAdd(o1, m1, zero20, 0, 102, "4"), mkAdd(o3, m1, zero20, 2, 102, "40"), be,
+		mkAdd(o1, m1, zero20, 0, 103, "8"), mkAdd(o3, m2, zero20, 3, 103, "80"), mkAdd(o3, m2, zero20, 3, 103, "80"), be, rb(3), mkGet(o1, m1, 0, 1), mkGet(o3, m1, 2, 1), mkGet(o3, m2, 3, 1),
+		mkAdd(o1, m1, zero20, 0, 101, "16"), be, mkAdd(o3, m2, zero20, 3, 102, "3"), be, rb(1), mkClaim(0, o1, m1, t1, 0, 1, th), mkGet(o3, m2, 3, 1), rb(5), mkGet(o1, m1, 0, 1),
+	})
 	return cs
+}
+
+// genReorgHistory: a generated history cut into blocks; some blocks (1-3 at a time) are orphaned right after they end.
+func genReorgHistory(r *hlib.Rng) []LOp {
+	base := genHistory(r)
+	var ops []LOp
+	blocks := 0
+	left := 1 + r.Intn(3)
+	for _, o := range base {
+		if o.K == "claim" && o.Claim.Mode == 3 {
+			// a claim in a reverted frame burns the lockup without an undo record (finding 1); its effect on reorgs is the same burn
+			c := *o.Claim
+			c.Mode = 2
+			o = LOp{K: "claim", Claim: &c}
+		}
+		ops = append(ops, o)
+		left--
+		if left <= 0 {
+			ops = append(ops, LOp{K: "blockend"})
+			blocks++
+			left = 1 + r.Intn(4)
+			if r.Chance(35) {
+				k := 1 + r.Pick(70, 20, 10)
+				ops = append(ops, LOp{K: "rollback", N: k})
+			}
+		}
+	}
+	ops = append(ops, LOp{K: "blockend"})
+	if r.Chance(50) {
+		ops = append(ops, LOp{K: "rollback", N: 1 + r.Intn(2)})
+		for _, o := range base {
+			if o.K == "get" || (o.K == "claim" && o.Claim.Mode == 0) {
+				ops = append(ops, o)
+			}
+		}
+	}
+	return ops
 }
 
 type tranche struct {
@@ -1355,7 +1609,7 @@ func main() {
 	vm.InitializePrecompiles(loc)
 	E = params.CoinbaseEpochBlocks
 	depths = params.LockupByteToBlockDepth
-	rep := hlib.NewReport("C13", "non-trivial = a ledger history in which at least one claim pays a positive accumulated balance or a tranche accumulates >= 2 rewards (fingerprint: op kinds + verdicts), or a redemption that credits at least one account (fingerprint: height class + credit count + classes)")
+	rep := hlib.NewReport("C13", "non-trivial = a ledger history in which at least one claim pays a positive accumulated balance or a tranche accumulates >= 2 rewards (fingerprint: op kinds + verdicts), or a redemption that credits at least one account (fingerprint: height class + credit count + classes), or a block tree in which VerifyUncles accepts at least one block with shares and refuses at least one re-listing as duplicate (fingerprint: verdict sequence)")
 	cw := hlib.NewCaseWriter(f.Out, header, "C13.case", 40)
 	tmp, err := os.MkdirTemp("", "c13_")
 	if err != nil {
@@ -1405,6 +1659,12 @@ func main() {
 			fp = fmt.Sprintf("R:%d:%d:%d", c.Redeem.Height/params.BlocksPerMonth, len(out.credits), out.cls)
 			rep.Count("case/redeem")
 			rep.Count(fmt.Sprintf("redeem_credits/%d", len(out.credits)))
+		case "uncles":
+			out := runUncles(c, rep)
+			body = "CUncles " + hlib.CoqList(out.steps)
+			nontriv = out.accepted > 0 && out.dupRej > 0
+			fp = "U:" + fmt.Sprint(out.verdicts)
+			rep.Count("case/uncles")
 		default:
 			panic("kind " + c.Kind)
 		}
@@ -1441,19 +1701,30 @@ func main() {
 	for _, c := range valueCases(r.Fork(), f.N/2) {
 		next(c)
 	}
+	for _, c := range unclesCorpus() {
+		next(c)
+	}
 	rl := r.Fork()
 	for i := 0; i < f.N; i++ {
 		be := "memorydb"
 		if rl.Chance(35) {
 			be = "leveldb"
 		}
-		next(Case{Kind: "ledger", Backend: be, Ops: genHistory(rl)})
+		if rl.Chance(30) {
+			next(Case{Kind: "ledger", Backend: be, Tag: "blocks", Ops: genReorgHistory(rl)})
+		} else {
+			next(Case{Kind: "ledger", Backend: be, Ops: genHistory(rl)})
+		}
 	}
 	rr := r.Fork()
 	for i := 0; i < f.N/3; i++ {
 		for _, c := range genRedeemWindow(rr) {
 			next(c)
 		}
+	}
+	ru := r.Fork()
+	for i := 0; i < f.N/2; i++ {
+		next(genUncles(ru))
 	}
 	cw.Close()
 	rep.Note(fmt.Sprintf("params: depths=%v epoch=%d conversionLock=%d", depths, E, params.ConversionLockPeriod))
